@@ -33,6 +33,13 @@ pub fn parse_value(buf: &[u8]) -> Result<Value<'_>, Error> {
     parser.parse()
 }
 
+// The first byte of the JSON value in `buf`, after the white space that `parse_value` skips.
+pub(crate) fn first_value_byte(buf: &[u8]) -> Option<u8> {
+    let mut parser = Parser::new(buf);
+    parser.skip_unused();
+    parser.buf.get(parser.idx).copied()
+}
+
 pub fn parse_lazy_value(buf: &[u8]) -> Result<LazyValue<'_>, Error> {
     if !is_jsonb(buf) {
         parse_value(buf).map(LazyValue::Value)
